@@ -16,13 +16,17 @@ func (fx *Fx) setLK(st *State, mu, mode string) {
 	st.setHeap("LK", "(Array Int Int)", fmt.Sprintf("(store %s %s %s)", fx.lkHeap(st), mu, mode))
 }
 
-func (fx *Fx) touchLock(mu string) {
+func (fx *Fx) touchLock(st *State, mu string) {
 	for _, m := range fx.c.locks {
 		if m == mu {
 			return
 		}
 	}
 	fx.c.locks = append(fx.c.locks, mu)
+	// an activation starts holding no lock unless its contract says otherwise (requires held(mu) == ...)
+	if fx.spec != nil && fx.spec.Flags["entrylocks"] == "" {
+		st.assume(fmt.Sprintf("(= (select %s %s) 0)", fx.entry.heap("LK", "(Array Int Int)"), mu))
+	}
 }
 
 func (fx *Fx) hardwired(st *State, fn *types.Func, call *ast.CallExpr, recv *Val, recvLoc *Loc, preArgs []Val) ([]Val, bool) {
@@ -59,32 +63,32 @@ func (fx *Fx) hardwired(st *State, fn *types.Func, call *ast.CallExpr, recv *Val
 			return nil, false
 		}
 		mu := c.define("mu", "Int", recv.T)
-		fx.touchLock(mu)
+		fx.touchLock(st, mu)
 		held := fmt.Sprintf("(select %s %s)", fx.lkHeap(st), mu)
 		what := fx.exprText(call.Fun)
 		switch recvName + "." + fn.Name() {
 		case "Mutex.Lock", "RWMutex.Lock":
 			c.oblige(st, "lock-order", "Lock("+what+")", fmt.Sprintf("(= %s 0)", held), "lock not already held by this activation: "+what, pos)
-			st.assume(fmt.Sprintf("(= %s 0)", held))
+			fx.assumeLock(st, fmt.Sprintf("(= %s 0)", held))
 			fx.setLK(st, mu, "2")
 			st.logEvent(evTerm("Lock", mu, "", "", "2"))
 			// other goroutines may have changed guarded state: nothing is known about it (heaps are not refined by locks)
 			return nil, true
 		case "RWMutex.RLock":
 			c.oblige(st, "lock-order", "RLock("+what+")", fmt.Sprintf("(= %s 0)", held), "lock not already held by this activation: "+what, pos)
-			st.assume(fmt.Sprintf("(= %s 0)", held))
+			fx.assumeLock(st, fmt.Sprintf("(= %s 0)", held))
 			fx.setLK(st, mu, "1")
 			st.logEvent(evTerm("Lock", mu, "", "", "1"))
 			return nil, true
 		case "Mutex.Unlock", "RWMutex.Unlock":
 			c.oblige(st, "lock-released", "Unlock("+what+")", fmt.Sprintf("(= %s 2)", held), "unlock of a write lock held by this activation: "+what, pos)
-			st.assume(fmt.Sprintf("(= %s 2)", held))
+			fx.assumeLock(st, fmt.Sprintf("(= %s 2)", held))
 			fx.setLK(st, mu, "0")
 			st.logEvent(evTerm("Unlock", mu, "", "", "2"))
 			return nil, true
 		case "RWMutex.RUnlock":
 			c.oblige(st, "lock-released", "RUnlock("+what+")", fmt.Sprintf("(= %s 1)", held), "unlock of a read lock held by this activation: "+what, pos)
-			st.assume(fmt.Sprintf("(= %s 1)", held))
+			fx.assumeLock(st, fmt.Sprintf("(= %s 1)", held))
 			fx.setLK(st, mu, "0")
 			st.logEvent(evTerm("Unlock", mu, "", "", "1"))
 			return nil, true
@@ -250,4 +254,12 @@ func (fx *Fx) hardwired(st *State, fn *types.Func, call *ast.CallExpr, recv *Val
 		}
 	}
 	return nil, false
+}
+
+// assumeLock: after a lock-discipline obligation its fact is assumed only in functions under contract; in the
+// zero-annotation sweep the lock classes are not claimed and must not cut paths.
+func (fx *Fx) assumeLock(st *State, phi string) {
+	if fx.spec != nil {
+		st.assume(phi)
+	}
 }
